@@ -8,6 +8,7 @@ import (
 	"go/types"
 	"os"
 	"path/filepath"
+	"regexp"
 	"sort"
 	"strings"
 	"sync"
@@ -26,10 +27,244 @@ type FuncResult struct {
 	Contract *Contract
 	Called   []string
 	Port     bool
+	// UnknownLoopIdents: locals that untagged loop clauses name and the function no longer has
+	UnknownLoopIdents []string
 }
 
 // verifyFunc builds the obligations of one function.
 func verifyFunc(prog *Program, cs *ContractSet, full string, c *Contract, kfs []*KnownFinding) (res *FuncResult) {
+	res = verifyFuncRenamed(prog, cs, full, c, kfs, nil)
+	if res.Err != "" || len(res.UnknownLoopIdents) == 0 || c.Lemma {
+		return res
+	}
+	if r := verifyFuncTryRenames(prog, cs, full, c, kfs, res); r != res {
+		return r
+	}
+	return crossLoopFallback(prog, cs, full, c, kfs, res)
+}
+
+func verifyFuncTryRenames(prog *Program, cs *ContractSet, full string, c *Contract, kfs []*KnownFinding, res *FuncResult) *FuncResult {
+	if len(res.UnknownLoopIdents) > 2 {
+		return res
+	}
+	// Rename tolerance. An untagged loop invariant (proof structure, never a property clause)
+	// names a local the function no longer has - typically because the local was renamed.
+	// Try the function's locals that the contract does not mention in its place; a
+	// substitution is accepted only if every loop clause can be evaluated with it and every
+	// invariant obligation of the function is proved, so nothing is assumed: the invariants
+	// are simply proved about the variable that now plays that role.
+	fn := prog.findFunc(c.Pkg, c.Key)
+	if fn == nil {
+		return res
+	}
+	for _, u := range res.UnknownLoopIdents {
+		if identUsedOutsideUntaggedLoopClauses(c, u) {
+			return res
+		}
+	}
+	cands := unusedLocalNames(fn, c)
+	if len(cands) == 0 || len(cands) > 8 {
+		return res
+	}
+	var maps []map[string]string
+	us := res.UnknownLoopIdents
+	for _, a := range cands {
+		if len(us) == 1 {
+			maps = append(maps, map[string]string{us[0]: a})
+			continue
+		}
+		for _, b := range cands {
+			if a != b {
+				maps = append(maps, map[string]string{us[0]: a, us[1]: b})
+			}
+		}
+	}
+	for _, m := range maps {
+		r2 := verifyFuncRenamed(prog, cs, full, c, kfs, m)
+		if r2.Err != "" || len(r2.UnknownLoopIdents) > 0 {
+			continue
+		}
+		if !invariantObligationsHold(r2) {
+			continue
+		}
+		var parts []string
+		for _, k := range sortedKeys(m) {
+			parts = append(parts, k+" -> "+m[k])
+		}
+		r2.Notes = append(r2.Notes, fmt.Sprintf("%s: loop invariants name a local the function no longer has; proved with the local that took its place (%s)", full, strings.Join(parts, ", ")))
+		return r2
+	}
+	return res
+}
+
+// crossLoopFallback: a loop was rewritten so that an invariant of it cannot be evaluated any
+// more (and no plain rename explains it). The facts the rest of the proof needs from that loop
+// are usually spelled out again in the invariants of the loops after it, so every conjunct of
+// every untagged invariant of the function is tried as a candidate invariant on every loop
+// (proved inductive or dropped, like all candidates). Used only when drift was detected, so it
+// costs nothing on an unchanged function.
+func crossLoopFallback(prog *Program, cs *ContractSet, full string, c *Contract, kfs []*KnownFinding, res *FuncResult) *FuncResult {
+	r2 := verifyFuncCross(prog, cs, full, c, kfs)
+	if r2.Err != "" {
+		return res
+	}
+	r2.Notes = append(r2.Notes, fmt.Sprintf("%s: a loop invariant no longer fits its loop; the conjuncts of the function's other untagged invariants were tried as candidate invariants on every loop", full))
+	return r2
+}
+
+// identUsedOutsideUntaggedLoopClauses: the name occurs in a clause that carries a property
+// tag or is not a loop invariant / decreases clause (there a substitution could change what
+// the property clause says, so none is tried).
+func identUsedOutsideUntaggedLoopClauses(c *Contract, name string) bool {
+	re := regexp.MustCompile(`(^|[^A-Za-z0-9_.])` + regexp.QuoteMeta(name) + `($|[^A-Za-z0-9_])`)
+	in := func(cl *Clause) bool { return cl != nil && re.MatchString(cl.Src) }
+	for _, cl := range c.Requires {
+		if in(cl) {
+			return true
+		}
+	}
+	for _, cl := range c.Ensures {
+		if in(cl) {
+			return true
+		}
+	}
+	for _, cc := range c.Calls {
+		for _, cl := range cc.Asserts {
+			if in(cl) {
+				return true
+			}
+		}
+		for _, cl := range cc.Assumes {
+			if in(cl) {
+				return true
+			}
+		}
+	}
+	for _, lc := range c.Loops {
+		for _, cl := range lc.Invariants {
+			if cl.Tag != "" && in(cl) {
+				return true
+			}
+		}
+		for _, cl := range lc.Latch {
+			if in(cl) {
+				return true
+			}
+		}
+	}
+	return false
+}
+
+// unusedLocalNames: named locals of fn (not parameters) that no clause of the contract mentions.
+func unusedLocalNames(fn *ssa.Function, c *Contract) []string {
+	names := map[string]bool{}
+	for _, b := range fn.Blocks {
+		for _, in := range b.Instrs {
+			switch i := in.(type) {
+			case *ssa.Phi:
+				if i.Comment != "" {
+					names[i.Comment] = true
+				}
+			case *ssa.Alloc:
+				if i.Comment != "" {
+					names[i.Comment] = true
+				}
+			case *ssa.DebugRef:
+				if o := i.Object(); o != nil {
+					names[o.Name()] = true
+				}
+			}
+		}
+	}
+	for _, p := range fn.Params {
+		delete(names, p.Name())
+	}
+	var all []string
+	add := func(cl *Clause) {
+		if cl != nil {
+			all = append(all, cl.Src)
+		}
+	}
+	for _, cl := range c.Requires {
+		add(cl)
+	}
+	for _, cl := range c.Ensures {
+		add(cl)
+	}
+	for _, cc := range c.Calls {
+		for _, cl := range cc.Asserts {
+			add(cl)
+		}
+		for _, cl := range cc.Assumes {
+			add(cl)
+		}
+	}
+	for _, lc := range c.Loops {
+		for _, cl := range lc.Invariants {
+			add(cl)
+		}
+		for _, cl := range lc.Latch {
+			add(cl)
+		}
+		add(lc.Decreases)
+	}
+	text := strings.Join(all, "\n")
+	var out []string
+	for _, n := range sortedKeys(names) {
+		if n == "_" || strings.HasPrefix(n, "rangeindex") {
+			continue
+		}
+		re := regexp.MustCompile(`(^|[^A-Za-z0-9_.])` + regexp.QuoteMeta(n) + `($|[^A-Za-z0-9_])`)
+		if !re.MatchString(text) {
+			out = append(out, n)
+		}
+	}
+	return out
+}
+
+// invariantObligationsHold: every loop-invariant obligation of the result is proved (short
+// timeout, as in the candidate-invariant rounds).
+func invariantObligationsHold(res *FuncResult) bool {
+	ok := true
+	var mu sync.Mutex
+	var wg sync.WaitGroup
+	n := 0
+	for _, o := range res.Obls {
+		if o.Kind != "inv-entry" && o.Kind != "inv-step" {
+			continue
+		}
+		n++
+		o := o
+		wg.Add(1)
+		autoSem <- struct{}{}
+		go func() {
+			defer wg.Done()
+			defer func() { <-autoSem }()
+			dir, err := os.MkdirTemp("", "wkv-ren")
+			if err != nil {
+				mu.Lock()
+				ok = false
+				mu.Unlock()
+				return
+			}
+			defer os.RemoveAll(dir)
+			r := solve(buildQuery(res.Script, o, false), filepath.Join(dir, "q.smt2"), 5, 0, false)
+			if r.Status != "unsat" {
+				mu.Lock()
+				ok = false
+				mu.Unlock()
+			}
+		}()
+	}
+	wg.Wait()
+	return ok && n > 0
+}
+
+func verifyFuncCross(prog *Program, cs *ContractSet, full string, c *Contract, kfs []*KnownFinding) *FuncResult {
+	return verifyFuncRenamed(prog, cs, full, c, kfs, map[string]string{"$cross-loop": "on"})
+}
+
+func verifyFuncRenamed(prog *Program, cs *ContractSet, full string, c *Contract, kfs []*KnownFinding, renames map[string]string) (res *FuncResult) {
 	// auto-invariants: Houdini. Candidates are assumed at the loop head and checked at every
 	// back edge; a candidate whose step is not proved is dropped and the function is
 	// regenerated, until every remaining candidate is inductive together with the others.
@@ -38,7 +273,7 @@ func verifyFunc(prog *Program, cs *ContractSet, full string, c *Contract, kfs []
 	dropped := map[string]bool{}
 	for round := 0; ; round++ {
 		t0 := time.Now()
-		res = verifyFuncOnce(prog, cs, full, c, kfs, dropped)
+		res = verifyFuncOnce(prog, cs, full, c, kfs, dropped, renames)
 		if os.Getenv("WKV_DEBUG_AUTO") != "" {
 			fmt.Fprintf(os.Stderr, "auto: %s round %d gen %dms obls %d dropped %d\n", full, round, time.Since(t0).Milliseconds(), len(res.Obls), len(dropped))
 		}
@@ -92,7 +327,7 @@ var genMu sync.Mutex
 // autoSem bounds the solver processes of all candidate-invariant rounds together.
 var autoSem = make(chan struct{}, 14)
 
-func verifyFuncOnce(prog *Program, cs *ContractSet, full string, c *Contract, kfs []*KnownFinding, dropAuto map[string]bool) (res *FuncResult) {
+func verifyFuncOnce(prog *Program, cs *ContractSet, full string, c *Contract, kfs []*KnownFinding, dropAuto map[string]bool, renames map[string]string) (res *FuncResult) {
 	genMu.Lock()
 	defer genMu.Unlock()
 	res = &FuncResult{Key: full, Contract: c}
@@ -106,7 +341,7 @@ func verifyFuncOnce(prog *Program, cs *ContractSet, full string, c *Contract, kf
 		}
 	}()
 	s := newScript(c.Mode == "bv", c.Strings == "smt")
-	x := &Exec{prog: prog, s: s, cs: cs, maxDepth: 12, kfs: kfs, dropAuto: dropAuto}
+	x := &Exec{prog: prog, s: s, cs: cs, maxDepth: 12, kfs: kfs, dropAuto: dropAuto, renames: renames}
 	res.Script = s
 	if c.Lemma {
 		x.verifyLemma(c, res)
@@ -136,6 +371,7 @@ func verifyFuncOnce(prog *Program, cs *ContractSet, full string, c *Contract, kf
 	}
 	res.Obls = x.obls
 	res.Notes = x.notes
+	res.UnknownLoopIdents = sortedKeys(x.unknownLoopIdents)
 	for t := range x.trusted {
 		res.Trusted = append(res.Trusted, t)
 	}
@@ -176,6 +412,11 @@ func (x *Exec) verifyBody(fn *ssa.Function, c *Contract, res *FuncResult) {
 		sort.Ints(ords)
 		for _, n := range ords {
 			for _, inv := range c.Loops[n].Invariants {
+				if inv.Tag != "" {
+					// a property invariant migrates whole and is required where it lands
+					x.orphanInvs = append(x.orphanInvs, inv)
+					continue
+				}
 				for _, e := range splitConjuncts(inv.E) {
 					x.orphanInvs = append(x.orphanInvs, &Clause{Kind: inv.Kind, Src: e.String(), E: e, Line: inv.Line, File: inv.File})
 				}
@@ -230,7 +471,12 @@ func (x *Exec) verifyBody(fn *ssa.Function, c *Contract, res *FuncResult) {
 			// easier - so they are dropped with a note. A tagged (property) loop clause must
 			// not vanish silently.
 			tagged := false
-			for _, inv := range append(append([]*Clause{}, c.Loops[n].Invariants...), c.Loops[n].Latch...) {
+			for _, inv := range c.Loops[n].Invariants {
+				if inv.Tag != "" && !x.orphanPlaced[inv] {
+					tagged = true
+				}
+			}
+			for _, inv := range c.Loops[n].Latch {
 				if inv.Tag != "" {
 					tagged = true
 				}
@@ -408,6 +654,7 @@ func (x *Exec) inventoryObligations(fn *ssa.Function, c *Contract) {
 			allowed[w] = true
 		}
 		var offenders []string
+		var offenderFns []*ssa.Function
 		found := false
 		var visit func(f *ssa.Function)
 		visit = func(f *ssa.Function) {
@@ -438,6 +685,7 @@ func (x *Exec) inventoryObligations(fn *ssa.Function, c *Contract) {
 					}
 					if !allowed[funcKey(f)] && !allowed[funcKey(root)] {
 						offenders = append(offenders, funcKey(f)+" ("+x.prog.pos(in.Pos())+")")
+						offenderFns = append(offenderFns, root)
 					}
 				}
 			}
@@ -460,6 +708,66 @@ func (x *Exec) inventoryObligations(fn *ssa.Function, c *Contract) {
 					}
 				}
 			}
+		}
+		// A function outside the list whose every (static, same-package) caller is on the list
+		// is a helper of those functions - typically a few lines extracted from one of them -
+		// and counts as part of them. One level only: a function reached through an unlisted
+		// function stays an offender.
+		if len(offenders) > 0 {
+			callers := map[*ssa.Function]map[*ssa.Function]bool{}
+			var scan func(f *ssa.Function)
+			scan = func(f *ssa.Function) {
+				root := f
+				for root.Parent() != nil {
+					root = root.Parent()
+				}
+				for _, b := range f.Blocks {
+					for _, in := range b.Instrs {
+						if ci, ok := in.(ssa.CallInstruction); ok {
+							if callee := ci.Common().StaticCallee(); callee != nil && callee.Pkg == sp0(fn) {
+								if callers[callee] == nil {
+									callers[callee] = map[*ssa.Function]bool{}
+								}
+								callers[callee][root] = true
+							}
+						}
+					}
+				}
+				for _, af := range f.AnonFuncs {
+					scan(af)
+				}
+			}
+			for _, m := range fn.Pkg.Members {
+				switch mm := m.(type) {
+				case *ssa.Function:
+					scan(mm)
+				case *ssa.Type:
+					for _, t := range []types.Type{mm.Type(), types.NewPointer(mm.Type())} {
+						ms := fn.Pkg.Prog.MethodSets.MethodSet(t)
+						for i := 0; i < ms.Len(); i++ {
+							if mf := fn.Pkg.Prog.MethodValue(ms.At(i)); mf != nil && mf.Pkg == fn.Pkg && mf.Synthetic == "" {
+								scan(mf)
+							}
+						}
+					}
+				}
+			}
+			var kept []string
+			for i, of := range offenderFns {
+				cs := callers[of]
+				ok := len(cs) > 0
+				for cf := range cs {
+					if !allowed[funcKey(cf)] {
+						ok = false
+					}
+				}
+				if ok {
+					x.note("inventory %s: %s is called only by listed functions and counts as part of them", inv.Field, funcKey(of))
+					continue
+				}
+				kept = append(kept, offenders[i])
+			}
+			offenders = kept
 		}
 		name := fmt.Sprintf("%s#inventory.%s", funcKey(fn), inv.Field)
 		if inv.Tag != "" {
@@ -708,5 +1016,18 @@ func splitConjuncts(e CExpr) []CExpr {
 	if b, ok := e.(*CBin); ok && b.Op == "&&" {
 		return append(splitConjuncts(b.L), splitConjuncts(b.R)...)
 	}
+	// forall x: A && B  ==  (forall x: A) && (forall x: B)
+	if q, ok := e.(*CQuant); ok && q.Forall {
+		parts := splitConjuncts(q.Body)
+		if len(parts) > 1 {
+			var out []CExpr
+			for _, p := range parts {
+				out = append(out, &CQuant{Forall: true, Var: q.Var, Typ: q.Typ, Lo: q.Lo, Hi: q.Hi, Body: p})
+			}
+			return out
+		}
+	}
 	return []CExpr{e}
 }
+
+func sp0(fn *ssa.Function) *ssa.Package { return fn.Pkg }
